@@ -23,7 +23,8 @@ EXPLANATION = (
     "is_additional=true only for the last, and both merge the EDNS high rcode bits into the header rcode; read_records files "
     "OPT and TSIG/SIG(0) out of the additionals exactly when is_additional; (Q2) no emit/read/read_data function of a message part or RDATA "
     "type (cone inside rr::rdata, dnssec::rdata, op, rr::record*) calls a reordering, filtering, truncating or re-casing operation "
-    "(sort*, dedup*, retain, reverse, filter, take/skip, to_*case, Vec::remove/insert...), with one reviewed exception (ECS address prefix).")
+    "(sort*, dedup*, retain, reverse, filter, take/skip, to_*case, Vec::remove/insert...), with one reviewed exception (ECS address prefix); (G4) the offset ORed into a compression pointer is below 2^14: guarded where "
+    "candidates are stored (write offset < 0x3FFF) or where they are used (top two bits clear) - at least one of the two.")
 NOT_DECIDED = ("Equality of values after a round trip (case preservation, option ordering, >120 compressed names, pointer offsets >= 0x3FFF, "
                "per-type field order and width agreement between emit and read_data - not linearised by this checker); which of the two "
                "flag octets a mask is applied to.")
@@ -308,8 +309,31 @@ def pure_codec(cx):
     cx.notes.append(f'codec cone: {len(cn)} functions from {len(roots)} entry points; {n} data-transforming call(s), all reviewed')
 
 
+def pointer_range(cx):
+    """G4: a compression pointer is 0b11 followed by a 14-bit offset (RFC 1035 4.1.4).  An offset >= 2^14 ORed with 0xC000 silently
+    becomes a pointer to (offset & 0x3FFF): the message decodes to other names or not at all.  The tree guards this twice - candidates
+    are stored only while the write offset is below 0x3FFF, and Name::emit uses a candidate only if its two top bits are clear.
+    Either guard alone is sufficient; the rule requires at least one (dropping both is what breaks messages beyond 16 KiB)."""
+    st = cx.fn('C02.G4', P + 'serialize::binary::encoder::BinEncoder::store_label_pointer')
+    em = cx.fn('C02.G4', r'<hickory_proto::rr::domain::name::Name as hickory_proto::serialize::binary::BinEncodable>::emit')
+    if not st or not em:
+        return
+    push = cx.calls(st, r'Vec<T, A>::push$|Vec::push$')
+    cx.floor('C02.G4', len(push), 1, 'compression candidates stored')
+    a = bool(push) and all(cx.has_guard(s, r'^l[te]\(arg1\.offset,(16383|16384)\)$|^l[te]\(arg2,(16383|16384)\)$|^eq\(0,bitand\(arg2,49152\)\)$') for s in push)
+    ptr = [s for s in cx.calls(em, r'<u16 as .*BinEncodable>::emit$') if re.search(r'^<u16 as BinEncodable>::emit\(bitor\(49152,', s.term)]
+    cx.floor('C02.G4', len(ptr), 1, 'pointer emissions in Name::emit')
+    b = bool(ptr) and all(cx.has_guard(s, r'^eq\(0,bitand\(BinEncoder::get_label_pointer\(.*\)@Some\.0,49152\)\)$|^lt\(BinEncoder::get_label_pointer\(.*\)@Some\.0,16384\)$') for s in ptr)
+    cx.check('C02.G4', a or b, em.path, 'pointer', 'pointer-offset<2^14(guarded where stored or where used)',
+             f'stored-below-0x3FFF={a}; used-only-if-top-bits-clear={b}', ptr[0].loc if ptr else '',
+             sample={'fn': 'Name::emit / BinEncoder::store_label_pointer', 'stored_guard': a, 'use_guard': b, 'holds': a or b})
+    for s in ptr:
+        cx.check('C02.G4', bool(re.search(r'^<u16 as BinEncodable>::emit\(bitor\(49152,BinEncoder::get_label_pointer\(', s.term)), em.path, s.key(), 'pointer=0xC000|stored-offset', s.term[:120], s.loc)
+
+
 def run(cx):
     pure_codec(cx)
+    pointer_range(cx)
     variant_table(cx, 'C02.T1', 'RData', P + 'rr::record_data::RData::read', r'^<hickory_proto::rr::record_data::RData as hickory_proto::serialize::binary::BinEncodable>::emit$',
                   P + 'rr::record_data::RData::record_type', 26)
     variant_table(cx, 'C02.T1', 'DNSSECRData', P + 'dnssec::rdata::DNSSECRData::read', r'^hickory_proto::dnssec::rdata::DNSSECRData::emit$',
